@@ -116,6 +116,30 @@ Section Scanner.
     | c :: r => (0 < Z.of_nat (length c) <= request s) /\ feasible_from (fst (feed s c)) r
     end.
 
+  (* The environment: a writer hands over its chunks one at a time and waits until each has been read
+     (harness/pipe_feed.py); a read returns at most `request` bytes, so a chunk longer than that arrives
+     in pieces.  [read_pieces] is the list of read results the process sees. *)
+  Fixpoint pieces_of (fuel : nat) (s : pst) (w : text) : pst * list text :=
+    match fuel with
+    | O => (s, [])
+    | S k =>
+        match w with
+        | [] => (s, [])
+        | _ => if done s then (s, [])
+               else let n := Z.to_nat (request s) in
+                    let piece := firstn n w in
+                    let '(s1, _) := feed s piece in
+                    let '(s2, ps) := pieces_of k s1 (skipn n w) in (s2, piece :: ps)
+        end
+    end.
+
+  Fixpoint read_pieces_from (s : pst) (ws : list text) : list text :=
+    match ws with
+    | [] => []
+    | w :: r => let '(s1, ps) := pieces_of (length w) s w in ps ++ read_pieces_from s1 r
+    end.
+  Definition read_pieces (ws : list text) : list text := read_pieces_from pst0 ws.
+
   (* ------------------------------------------------------------------------------------------
      The same scanner as a machine over single characters (no buffer indices, no chunks).
      ------------------------------------------------------------------------------------------ *)
